@@ -10,8 +10,8 @@ package mempool
 
 import (
 	"fmt"
-	"os"
 	"math/rand"
+	"os"
 	"sort"
 	"strings"
 )
@@ -29,7 +29,9 @@ const AutoSize = -1
 func (o Outpoint) TLA() string { return fmt.Sprintf("<<%d, %d>>", o.Src, o.Idx) }
 
 // MarshalText / UnmarshalText make outpoints usable as JSON map keys (replay files).
-func (o Outpoint) MarshalText() ([]byte, error) { return []byte(fmt.Sprintf("%d:%d", o.Src, o.Idx)), nil }
+func (o Outpoint) MarshalText() ([]byte, error) {
+	return []byte(fmt.Sprintf("%d:%d", o.Src, o.Idx)), nil
+}
 func (o *Outpoint) UnmarshalText(b []byte) error {
 	_, err := fmt.Sscanf(string(b), "%d:%d", &o.Src, &o.Idx)
 	return err
@@ -206,10 +208,10 @@ func (u *Universe) Module(modName, base string, c *Concrete, extraDefs, cfgTail 
 	return sb.String(), cf.String()
 }
 
-func fund(i int) Outpoint     { return Outpoint{0, i} }
-func out(t, i int) Outpoint   { return Outpoint{t, i} }
-func cb(slot int) Outpoint    { return Outpoint{-slot, 0} }
-func baseCB() Outpoint        { return Outpoint{BaseCBSrc, 0} }
+func fund(i int) Outpoint          { return Outpoint{0, i} }
+func out(t, i int) Outpoint        { return Outpoint{t, i} }
+func cb(slot int) Outpoint         { return Outpoint{-slot, 0} }
+func baseCB() Outpoint             { return Outpoint{BaseCBSrc, 0} }
 func ins(o ...Outpoint) []Outpoint { return o }
 
 func defaults(u Universe) *Universe {
@@ -252,8 +254,8 @@ func BuiltinUniverses() []*Universe {
 			Txs: []TxSpec{
 				{Ins: ins(fund(0)), NOut: 2, Fee: 2000, Rbf: true},
 				{Ins: ins(out(1, 0)), Fee: 1000},
-				{Ins: ins(fund(0)), Fee: 3100},             // = 2000+1000+minfee(100)
-				{Ins: ins(fund(0)), Fee: 3099},             // one short of the absolute fee rule
+				{Ins: ins(fund(0)), Fee: 3100},                      // = 2000+1000+minfee(100)
+				{Ins: ins(fund(0)), Fee: 3099},                      // one short of the absolute fee rule
 				{Ins: ins(fund(0), fund(1)), Fee: 4000, VSize: 200}, // fee rate 20000 = t1's rate, absolute fee sufficient
 				{Ins: ins(baseCB()), Fee: 1000},                     // immature until a block is mined (maturity 2)
 			}}),
